@@ -1,14 +1,16 @@
 /-
   C07 (block codecs) — what the bytes of the stateful sample-granular coders depend on: the XI delta coders carry
   their running value across calls, so cutting the samples into calls anywhere gives the same deltas; the OKI
-  coder likewise for cuts at even positions, and the proved witness of what an odd cut does (KF-VOX-ODD).
+  coder likewise for cuts at ANY position (the odd sample of a call is held for the next call / for close: KF-VOX-ODD,
+  repaired; what an odd cut did before as an `…_old_rule` witness).
   The block writer's flush rule at close.  Property theorems only.
 -/
 import SfModel.BlockFile
 import SfProofs.BlockWriter
 import SfProofs.BlockVox
+import SfProofs.BlockVoxCarry
 namespace Sf.C07Block
-open Sf Sf.Block Sf.Block.Proofs
+open Sf Sf.Block Sf.Block.Proofs Sf.VoxCarry
 
 /-! ## XI DPCM: ∀ splits, the deltas of xs ++ ys are the deltas of xs followed by those of ys started from the
     state xs left -/
@@ -39,31 +41,53 @@ theorem dpcm8_partition (xs : List Int) : ∀ (l : Int) (ys : List Int),
 
 example : (Dpcm.delta16 0 ([5, 7] ++ [4])).2 = [5, 2, -3] ∧ (Dpcm.delta16 (Dpcm.delta16 0 [5, 7]).1 [4]).2 = [-3] := by decide
 
-/-! ## VOX: an odd-length call inserts a sample (proved witness) -/
+/-! ## VOX: the bytes do not depend on where the calls are cut (KF-VOX-ODD, repaired) -/
 
-/-- the same four samples written as 3 + 1 and as 4: five and a half … six codes instead of four -/
-theorem vox_partition_pads :
-    (Oki.writeBlock 5 {} [256, 512, 768, 1024] 4).2.1.length = 2 ∧
-    ((Oki.writeBlock 4 {} [256, 512, 768] 3).2.1 ++
-      (Oki.writeBlock 2 (Oki.writeBlock 4 {} [256, 512, 768] 3).1 [1024] 1).2.1).length = 3 := by decide
+/-- old rule, witness: the same four samples written as 3 + 1 and as 4 — three bytes instead of two (each odd-length
+    call inserted a zero sample) -/
+theorem vox_partition_pads_old_rule :
+    (Oki.writeBlockOld 5 {} [256, 512, 768, 1024] 4).2.1.length = 2 ∧
+    ((Oki.writeBlockOld 4 {} [256, 512, 768] 3).2.1 ++
+      (Oki.writeBlockOld 2 (Oki.writeBlockOld 4 {} [256, 512, 768] 3).1 [1024] 1).2.1).length = 3 := by decide
 
-/-- what holds (the excluded class is exactly KF-VOX-ODD): when the first call has an even number of samples, two
-    calls produce the bytes, the count and the encoder state of one call with the concatenation — whatever the
-    512-sample pieces of `vox_write_block` are -/
-theorem vox_partition_partial (st : Oki.St) (xs ys : List Int) (hx : xs.length % 2 = 0) (hy : ys.length % 2 = 0) :
-    (Oki.writeBlock ((xs ++ ys).length + 1) st (xs ++ ys) (xs ++ ys).length).1 =
-      (Oki.writeBlock (ys.length + 1) (Oki.writeBlock (xs.length + 1) st xs xs.length).1 ys ys.length).1 ∧
-    (Oki.writeBlock ((xs ++ ys).length + 1) st (xs ++ ys) (xs ++ ys).length).2.1 =
-      (Oki.writeBlock (xs.length + 1) st xs xs.length).2.1 ++
-        (Oki.writeBlock (ys.length + 1) (Oki.writeBlock (xs.length + 1) st xs xs.length).1 ys ys.length).2.1 ∧
-    (Oki.writeBlock ((xs ++ ys).length + 1) st (xs ++ ys) (xs ++ ys).length).2.2 = xs.length + ys.length := by
-  rw [writeBlock_even _ st (xs ++ ys) (by rw [List.length_append]; omega) (Nat.lt_succ_self _),
-    writeBlock_even _ st xs hx (Nat.lt_succ_self _), writeBlock_even _ _ ys hy (Nat.lt_succ_self _),
-    encPairs_append xs st ys hx]
-  exact ⟨rfl, rfl, List.length_append⟩
+/-- full strength: two calls, cut ANYWHERE (odd or even position, any coder state, any sample held from earlier calls),
+    leave the coder state and the held sample of one call with the concatenation, their bytes concatenated are its
+    bytes and the counts add up — whatever the 512-sample pieces of `vox_write_block` are -/
+theorem vox_partition (st : Oki.St) (c : Option Int) (xs ys : List Int) :
+    let one := Oki.writeBlock ((xs ++ ys).length + 1) st c (xs ++ ys) (xs ++ ys).length
+    let a := Oki.writeBlock (xs.length + 1) st c xs xs.length
+    let b := Oki.writeBlock (ys.length + 1) a.1 a.2.1 ys ys.length
+    one.1 = b.1 ∧ one.2.1 = b.2.1 ∧ one.2.2.1 = a.2.2.1 ++ b.2.2.1 ∧ one.2.2.2 = a.2.2.2 + b.2.2.2 := by
+  simp only
+  rw [writeBlock_spec _ st c (xs ++ ys) (Nat.lt_succ_self _), writeBlock_spec _ st c xs (Nat.lt_succ_self _),
+    writeBlock_spec _ _ _ ys (Nat.lt_succ_self _)]
+  obtain ⟨h1, h2, h3⟩ := writeSpec_append st c xs ys
+  exact ⟨h1, h2, h3, by simp [writeSpec]⟩
 
-example : (Oki.writeBlock 5 {} ([256, 512] ++ [768, 1024]) 4).2.1 =
-    (Oki.writeBlock 3 {} [256, 512] 2).2.1 ++ (Oki.writeBlock 3 (Oki.writeBlock 3 {} [256, 512] 2).1 [768, 1024] 2).2.1 := by decide
+/-- non-vacuity, the old witness: 3 + 1 now gives the two bytes of one call of 4 -/
+example : (Oki.writeBlock 4 {} none [256, 512, 768] 3).2.2.1 ++
+      (Oki.writeBlock 2 (Oki.writeBlock 4 {} none [256, 512, 768] 3).1 (Oki.writeBlock 4 {} none [256, 512, 768] 3).2.1 [1024] 1).2.2.1 =
+    (Oki.writeBlock 5 {} none [256, 512, 768, 1024] 4).2.2.1 ∧ (Oki.writeBlock 5 {} none [256, 512, 768, 1024] 4).2.2.1.length = 2 := by decide
+
+/-- the closed file: any number of calls of any sizes, then `codec_close` — the bytes are the pair encoder over the
+    concatenated samples (an odd total gets the encoder's zero sample), so they depend on the concatenation only -/
+theorem vox_file_bytes_partition (calls : List (List Int)) :
+    voxFile {} none calls = (Oki.encPairs {} (padZero calls.flatten)).2 := by
+  rw [voxFile_spec]; rfl
+
+theorem vox_file_bytes_depend_on_samples_only (calls1 calls2 : List (List Int)) (h : calls1.flatten = calls2.flatten) :
+    voxFile {} none calls1 = voxFile {} none calls2 := by
+  rw [vox_file_bytes_partition, vox_file_bytes_partition, h]
+
+example : voxFile {} none [[256], [512, 768, 1024], [1280]] = voxFile {} none [[256, 512, 768, 1024, 1280]] ∧
+    (voxFile {} none [[256], [512, 768, 1024], [1280]]).length = 3 := by decide
+
+/-- the staging of `vox_write_i/f/d` (pieces of 4096 items) is invisible too -/
+theorem vox_write_call_staging (chunk : Nat) (st : Oki.St) (c : Option Int) (xs : List Int) :
+    Oki.writeCall chunk (xs.length + 1) st c xs xs.length = Oki.writeBlock (xs.length + 1) st c xs xs.length := by
+  rw [writeCall_spec chunk _ st c xs (Nat.lt_succ_self _), writeBlock_spec _ st c xs (Nat.lt_succ_self _)]
+
+example : Oki.writeCall 2 6 {} none [256, 512, 768, 1024, 1280] 5 = Oki.writeBlock 6 {} none [256, 512, 768, 1024, 1280] 5 := by decide
 
 /-! ## the flush at close -/
 
